@@ -2,7 +2,7 @@ package main
 
 func init() {
 	register("C10", &propInfo{
-		Explanation: "KEEP: both decimation criteria return 'removable' only behind the keep-filter (absent, or answered true). GUARDCALL: the vertex removal routine is only reached behind canRemoveVertex. OL: every exported Decimator option is read. FILL: in the mesh processing files (mesh_ops.go, smooth.go, subdivision.go, deformation.go, decimate.go; 2D and 3D) an output slice made with its final length and filled by index receives an element on every path of every iteration (a skipped store leaves a vertex at the origin).",
+		Explanation: "KEEP: both decimation criteria return 'removable' only behind the keep-filter (absent, or answered true). GUARDCALL: the vertex removal routine is only reached behind canRemoveVertex. OL: every exported Decimator option is read. SELFKEY: no lookup of a range key in the map being ranged over (the ARAP operator must compare the new constraint set with the cached one). FILL: in the mesh processing files (mesh_ops.go, smooth.go, subdivision.go, deformation.go, decimate.go; 2D and 3D) an output slice made with its final length and filled by index receives an element on every path of every iteration (a skipped store leaves a vertex at the origin).",
 		Trusted:     []string{"go/ssa dominators, edge-deletion reachability", "natural-loop detection of checker/dec_index.go"},
 		Fixtures:    []string{"f"},
 		Run: func(c *Ctx) {
@@ -15,6 +15,8 @@ func init() {
 			pkgs := append(c.libPkgs()[:2:2], c.fixturePkg("f"))
 			c.runFill("FILL", pkgs, c.fileFilter("mesh_ops.go", "smooth.go", "subdivision.go", "deformation.go", "decimate.go", "ptr_mesh.go"))
 			c.floor("FILL", 3)
+			c.runSelfKey("SELFKEY", c.libPkgs()[:3], nil)
+			c.floor("SELFKEY", 3)
 		},
 		SelfTest: []Mutation{
 			{Name: "normal criterion ignores the keep-filter", File: "model3d/decimate.go",
@@ -23,6 +25,8 @@ func init() {
 				Old: "\tif d.FilterFunc != nil && !d.FilterFunc(v.Vertex.Coord3D) {\n\t\treturn false\n\t}\n", New: "\tif d.FilterFunc != nil && d.EliminateCorners && !d.FilterFunc(v.Vertex.Coord3D) {\n\t\treturn false\n\t}\n", Rule: "KEEP", Expect: "distanceDecCriterion"},
 			{Name: "removal attempted before the criterion", File: "model3d/decimate.go",
 				Old: "if d.Criterion.canRemoveVertex(v) && d.attemptRemoveVertex(p, v) {", New: "if d.attemptRemoveVertex(p, v) && d.Criterion.canRemoveVertex(v) {", Rule: "GUARDCALL", Expect: "attemptRemoveVertex"},
+			{Name: "ARAP operator compares the new constraint set with itself", File: "model3d/deformation.go",
+				Old: "if _, ok := a.constraints[k]; !ok {", New: "if _, ok := constraints[k]; !ok {", Rule: "SELFKEY", Expect: "arapOperator"},
 			{Name: "isolated vertices are not copied by the filtered blur", File: "model3d/mesh_ops.go",
 				Old: "\t\t\tif len(ns) == 0 {\n\t\t\t\tnewCoords[i] = c\n\t\t\t\tcontinue\n\t\t\t}", New: "\t\t\tif len(ns) == 0 {\n\t\t\t\tcontinue\n\t\t\t}", Rule: "FILL", Expect: "BlurFiltered"},
 		},
